@@ -1,0 +1,23 @@
+//go:build verif
+
+package sm3
+
+import "hash"
+
+// Hooks for the verification harness (build tag "verif" only): read and overwrite the internal
+// state of a hash made by New, so that length-counter boundaries are reachable without
+// gigabyte inputs.
+
+// VerifSetState overwrites digest, length (in bits) and the unprocessed tail of h.
+func VerifSetState(h hash.Hash, digest [8]uint32, length uint64, tail []byte) {
+	s := h.(*SM3)
+	s.digest = digest
+	s.length = length
+	s.unhandleMsg = append([]byte{}, tail...)
+}
+
+// VerifGetState returns copies of digest, length (in bits) and the unprocessed tail of h.
+func VerifGetState(h hash.Hash) (digest [8]uint32, length uint64, tail []byte) {
+	s := h.(*SM3)
+	return s.digest, s.length, append([]byte{}, s.unhandleMsg...)
+}
